@@ -64,6 +64,19 @@ reg('C19', 'exploration',
     '"keep the fixed step" or "use the criteria formula"; the h min/max '
     'caches are as fresh as the last domain update, as in the solver loop.')
 
+reg('C06', 'exploration',
+    'record-list reference model (uid-keyed particle records) run beside the '
+    'real ParticleArray through generated operation sequences, compared '
+    'after every operation; replayed under gcc ASan+UBSan with an '
+    'instrumented cyarray',
+    'Held on every generated sequence (25 operation kinds, typed and strided '
+    'properties, mixed tags, zero particles, second arrays with extra or '
+    'missing properties): 640 sequences / 18k operations per quick run, '
+    '20k sequences per thorough run, no sanitizer report.',
+    'Only valid arguments; particle order is not asserted, only uid-keyed '
+    'contents, lengths, strides, types, defaults, constants and the alignment '
+    'postcondition; the output-array list is observed, not asserted.')
+
 _pending = {
 }
 for _i in range(1, 21):
